@@ -700,6 +700,11 @@ class Verifier(ExprMixin, CallMixin, BuiltinMixin, StmtMixin, Executor):
                     env = dict(env)
                     st, env[n] = self.box_record(st, v, t.args[0])
         pre = st
+        if not c.verify:
+            # an assumed (never verified) contract is being relied on: recorded, so that the evidence of every property whose
+            # functions use it lists it
+            used = self.__dict__.setdefault('assumed_used', set())
+            used.add(c.key)
         # 1. precondition obligations
         for i, r in enumerate(c.requires):
             goal = self.spec_bool(r, pre, env, as_goal=True)
